@@ -158,12 +158,60 @@ def _int_eval(e: ast.AST, env: Dict[str, int]) -> int:
     raise AnchorError(f"index expression `{t}` is outside the folded fragment (+, -, ~, abs, constants)")
 
 
+def _bool_eval(e: ast.AST, env: Dict[str, int]) -> bool:
+    if isinstance(e, ast.BoolOp):
+        vals = [_bool_eval(v, env) for v in e.values]
+        return all(vals) if isinstance(e.op, ast.And) else any(vals)
+    if isinstance(e, ast.UnaryOp) and isinstance(e.op, ast.Not):
+        return not _bool_eval(e.operand, env)
+    if isinstance(e, ast.Compare):
+        left = _int_eval(e.left, env)
+        for op, r in zip(e.ops, e.comparators):
+            right = _int_eval(r, env)
+            ok = {
+                ast.Lt: left < right, ast.LtE: left <= right, ast.Gt: left > right, ast.GtE: left >= right,
+                ast.Eq: left == right, ast.NotEq: left != right,
+            }.get(type(op))
+            if ok is None:
+                raise AnchorError(f"comparison operator in `{norm(e)}` outside the folded fragment")
+            if not ok:
+                return False
+            left = right
+        return True
+    raise AnchorError(f"predicate `{norm(e)}` is outside the folded fragment (and/or/not over integer comparisons)")
+
+
+def index_range_rule(prog: Program, chk: Check, rid: str) -> None:
+    """The in-range test guarding `members[key.val]` equals Python's -n <= k < n
+    on the whole grid n in 0..5, k in -7..7 (folded, not executed)."""
+    m = "implementation"
+    outer = prog.func(m, "_sequence_common_getitem_impl")
+    sites = []
+    for n in ast.walk(outer):
+        if isinstance(n, ast.If):
+            for st in n.body:
+                if isinstance(st, ast.Return) and isinstance(st.value, ast.Subscript) and norm(st.value.slice) == "key.val" and isinstance(st.value.value, ast.Name):
+                    sites.append((n, st.value.value.id))
+    if not sites:
+        raise AnchorError("_sequence_common_getitem_impl: no `if <in range>: return members[key.val]`")
+    for n, seq in sites:
+        bad = []
+        for size in range(0, 6):
+            for k in range(-7, 8):
+                got = _bool_eval(n.test, {"key.val": k, f"len({seq})": size})
+                want = -size <= k < size
+                if got != want:
+                    bad.append({"len": size, "index": k, "tree_says_in_range": got, "python": want})
+        chk.ob(rid, f"{m}::_sequence_common_getitem_impl::in-range-test", not bad, prog.site(m, n),
+               f"`{norm(n.test)}` vs Python's -n <= k < n: " + ("agree on 90 (n, k) pairs" if not bad else f"{len(bad)} disagreements, first: {bad[0]}"), witness=bad[:6])
+
+
 def r01_f(prog: Program, chk: Check) -> None:
     chk.rule(
         "R01.f",
         "constant index into a sequence with an unpacked part: counting from the front, index k selects prefix position k; "
         "counting from the back, index k<0 selects reversed position -k-1; and the scan gives up at the first unpacked member before it compares",
-        floor=4,
+        floor=5,
     )
     m = "implementation"
     outer = prog.func(m, "_sequence_common_getitem_impl")
@@ -254,3 +302,4 @@ def run(prog: Program, chk: Check) -> None:
     r01_b(prog, chk)
     r01_cde(prog, chk)
     r01_f(prog, chk)
+    index_range_rule(prog, chk, "R01.f")
